@@ -86,6 +86,7 @@ type Net struct {
 	Tap       func(conn int, dir int, data []byte) // observes every written segment (wire monitor)
 	TapRead   func(conn int, dir int, data []byte) // observes bytes as the receiving endpoint reads them
 	OnConn    func(p *Pair)
+	OnDial    func(start, end time.Duration, ok bool) // every dial attempt with its simulated start/end time
 }
 
 type dialFault struct {
@@ -260,6 +261,15 @@ func DialContext(d *net.Dialer, ctx context.Context, network, address string) (n
 	if n == nil {
 		return nil, errors.New("simnet: no network")
 	}
+	start := simrt.Now()
+	c, err := dialContext(n, d, ctx, network, address)
+	if n.OnDial != nil {
+		n.OnDial(start, simrt.Now(), err == nil)
+	}
+	return c, err
+}
+
+func dialContext(n *Net, d *net.Dialer, ctx context.Context, network, address string) (net.Conn, error) {
 	n.Stats.Dials++
 	simrt.Logf("net dial %s", address)
 	done := ctx.Done()
